@@ -36,10 +36,14 @@ func caseGen() *rapid.Generator[Case] {
 		n := rapid.IntRange(3, max).Draw(t, "n")
 		var c Case
 		for i := 0; i < n; i++ {
-			k := rapid.SampledFrom([]string{"set", "set", "set", "set", "set", "setnil", "setnil", "reset", "copycell", "copycell", "addcopy", "grow", "grow", "hdr", "newrow", "attach", "sep", "handle", "handle"}).Draw(t, "op")
+			k := rapid.SampledFrom([]string{"set", "set", "set", "set", "set", "setnil", "setnil", "reset", "copycell", "copycell", "addcopy", "grow", "grow", "hdr", "newrow", "attach", "sep", "handle", "handle", "setmany", "nestcell", "update"}).Draw(t, "op")
 			op := Op{K: k}
 			switch k {
-			case "set", "setnil", "reset", "copycell":
+			case "setmany":
+				op.Owner = og.Draw(t, "owner")
+				op.Key = rapid.IntRange(0, len(Keys)-1).Draw(t, "key")
+				op.N = rapid.IntRange(8, len(Keys)).Draw(t, "nkeys")
+			case "set", "setnil", "reset", "copycell", "nestcell", "update":
 				op.Owner = og.Draw(t, "owner")
 				op.Key = rapid.IntRange(0, 5).Draw(t, "key") // a small window of the pool so that keys collide often
 				if rapid.IntRange(0, 4).Draw(t, "widekey") == 0 {
